@@ -688,10 +688,22 @@ func (g *gen) genFields(td *TypeDecl, own []*TypeDecl, earlier []*Pkg) {
 		ptr := g.chance("embPtr", 30)
 		add(&Field{Name: o.Name, Type: o, Ptr: ptr, Embedded: true, Ref: &TypeRef{Type: o, Ptr: ptr}})
 	}
+	// one declaration with several names: P, Q int - a doc comment (@mutable) covers all of them
+	if g.chance("multiNameField", 20) {
+		add(&Field{Name: "P", Basic: "int", With: []string{"Q", "R"}})
+		add(&Field{Name: "Q", Basic: "int", JoinPrev: true})
+		add(&Field{Name: "R", Basic: "int", JoinPrev: true})
+	}
+	var lead *Field
 	for _, f := range td.Fields {
 		if f.Embedded {
 			continue
 		}
+		if f.JoinPrev {
+			f.Mutable = lead.Mutable
+			continue
+		}
+		lead = f
 		if g.chance("mutable", 25) {
 			f.Mutable = true
 		}
